@@ -19,6 +19,10 @@ RULE = ("every base function / class member whose docstring says 'SymPy: support
         "symbolic output evaluated at the point = numeric call at the point (1e-12 relative), entries that are structurally "
         "0 or 1 are exactly 0 / 1, same call forms as numerically. Non-trivial: >= 2 distinct symbols, or mixed "
         "symbolic/numeric, or a special angle.")
+RULE = RULE + (" The numbers standing beside the symbols are Python floats / ints, np.float64, np.int64 or np.int32 (numtype), down to "
+               "1e-12 in size; vectors are given as lists, tuples, 1-D and column object arrays; symbolic poses obtained as "
+               "numeric@symbolic and symbolic@numeric products; simplify() of poses and expressions; symbolic determinants of "
+               "4x4 arrays that are not poses; kind symhist: history probe on symbolic pose objects.")
 ASSUMPTIONS = ["SymPy evalf at 30 digits is the evaluator of symbolic output", "the structural-constant clause is applied to constructors and accessors, not to composed operator expressions (where e.g. sin^2+cos^2 is a legitimate unsimplified 1)", "only entries marked 'SymPy: supported' are in scope",
                "structural constants are identified from the numeric result at two generic points",
                "numbers beside symbols are Python numbers, np.float64 or NumPy integers; single-precision NumPy scalars beside symbols are not generated (inside object arrays NumPy's own scalar arithmetic keeps them in single precision - observed 1e-8 differences, NumPy semantics rather than a library code path); a NumPy scalar as LEFT operand of a pose is dispatched by NumPy and is not generated"]
